@@ -118,6 +118,26 @@ CLAIMED = {
             "function (assumption). Trusts: Coq kernel, tools/gen/gen_ctx.py (aborts on unrecognised instructions), the 9-instruction ISA semantics "
             "of coq/CtxIsa.v, extraction + driver, rt/h_ctx.c.",
             "DESIGN.md 6 C19"),
+    "C13": ("Coq invariant (queue shape + hazard-pointer layer) with ghost logs and allocation generations over an access-granularity model; "
+            "lock-step trace correspondence with eager node recycling",
+            "Machine-checked theorems over every reachable state of an executable model of mpmc_fifo.h on top of the hazard-pointer scan (any "
+            "number of pushers/poppers, any programs, any schedule, nodes recycled as soon as a scan reclaims them): popped values are a prefix of "
+            "pushed values in tail-CAS order, the pop whose head CAS succeeds returns the oldest value, NULL only when empty or the oldest push is "
+            "between its tail CAS and its link write, no field access touches a reclaimed node, the head CAS cannot succeed on a recycled head. "
+            "Tied to /repo on every run by per-access trace comparison of mpmc_fifo.h + hazard_pointer.c with the extracted model.",
+            "Trusts: Coq kernel; extraction + driver; rt/rt.c + gcc TSan instrumentation; SC interleaving (store_load_barrier is a no-op under it; the "
+            "fence's necessity on TSO is not modelled); qsort = any sorted permutation (Section hypothesis); -O0 build.",
+            "DESIGN.md 6 C13, Appendix B"),
+    "C14": ("Coq invariants over an access-granularity model of hazard_pointer.c incl. scan and binary search; lock-step trace correspondence + "
+            "probe-by-probe differential test of binary_search",
+            "Machine-checked theorems over every reachable state (any K >= 1, any number of records joining at any time, any programs and schedules): "
+            "a node with a published-and-validated protection is never handed to the reclamation callback, scans reclaim exactly the retired nodes "
+            "absent from their snapshot (each once), binary search correct on every sorted haystack with all probe indices in range, the snapshot "
+            "array is never overrun while records register, retired_count <= 2*N*K always and <= N*K after a scan, threshold bounds (the exact "
+            "R = 2NK claim of the header comment is refuted during joins: a documented, safe deviation). Tied to /repo by per-access lock-step.",
+            "Trusts: Coq kernel; extraction + driver; rt/rt.c; SC interleaving; qsort returns a sorted permutation (Section hypothesis, discharged for "
+            "the model's insertion sort); -O0 build.",
+            "DESIGN.md 6 C14"),
 }
 
 NOT_YET = "model and proof not built yet in this development (see DESIGN.md 6 for the plan); not claimed until a check exists"
